@@ -56,7 +56,9 @@ def snap(order):
     return (order.status, len(order.status_log), dict(order.update_data), getattr(order.order_type, "persistence_type", None), order.trade.status, len(order.trade.orders))
 
 
-def packaging_case(cid, rnd, exchange, n_req):
+def packaging_case(cid, rnd, exchange, n_req, burst=False):
+    """burst: one long transaction, rarely flushed, most requests amendments - every kind's pending list grows well past
+    its own per-call limit while the other kinds (with other limits) are pending in the same transaction"""
     from flumine import clients, BaseStrategy, config as fconfig
     from flumine.markets.market import Market
     from flumine.order.trade import Trade
@@ -96,11 +98,14 @@ def packaging_case(cid, rnd, exchange, n_req):
     txn.__enter__()
     for k in range(n_req):
         x = rnd.random()
-        if x < 0.02:
+        if x < (0.003 if burst else 0.02):
             txn.execute()
             events.append(["execute"])
             continue
-        kind = rnd.choice(["PLACE"] * 6 + ["CANCEL", "CANCEL", "UPDATE", "REPLACE", "REPLACE"]) if live else "PLACE"
+        if burst:
+            kind = rnd.choice(["PLACE"] * 4 + ["CANCEL"] * 3 + ["UPDATE"] * 2 + ["REPLACE"] * 3) if len(live) > 3 else "PLACE"
+        else:
+            kind = rnd.choice(["PLACE"] * 6 + ["CANCEL", "CANCEL", "UPDATE", "REPLACE", "REPLACE"]) if live else "PLACE"
         force = rnd.random() < 0.05
         refuse = rnd.random() < 0.1
         ver = rnd.choice([None, None, 7, 8])
@@ -175,6 +180,10 @@ def run_check(tier, seed):
         ex = ["SIMULATED", "BETFAIR", "BETDAQ"][i % 3]
         size = rnd.choice([0, 1, 5, 40, 130, 450, 700]) if ex != "BETDAQ" else rnd.choice([0, 3, 12, 35, 120])
         cases.append(dict(packaging_case("tx%d" % i, rnd, ex, size), kind="packaging"))
+    for i in range(6 if tier == "quick" else 90):
+        ex = ["SIMULATED", "BETFAIR", "BETDAQ"][i % 3]
+        size = rnd.choice([450, 700, 900]) if ex != "BETDAQ" else rnd.choice([120, 260])
+        cases.append(dict(packaging_case("txb%d" % i, rnd, ex, size, burst=True), kind="packaging"))
     wd = tlc.workdir("c02")
     try:
         res = validate_cases(cases, ["C02"], wd, module="TxTrace")
